@@ -979,6 +979,10 @@ func convertRule(l *slog.Logger, p any, table string, i int) (rule, error) {
 			return r, errors.New("group should contain a single value, an array with more than one entry was provided")
 		}
 
+		if len(v) == 0 {
+			return r, errors.New("group should contain a single value, an empty array was provided")
+		}
+
 		l.Warn("group was an array with a single value, converting to simple value",
 			"table", table,
 			"rule", i,
@@ -989,12 +993,20 @@ func convertRule(l *slog.Logger, p any, table string, i int) (rule, error) {
 	singleGroup := toString("group", m)
 
 	if rg, ok := m["groups"]; ok {
+		if rg == nil {
+			return r, errors.New("groups was provided but is empty")
+		}
+
 		switch reflect.TypeOf(rg).Kind() {
 		case reflect.Slice:
 			v := reflect.ValueOf(rg)
 			r.Groups = make([]string, v.Len())
 			for i := 0; i < v.Len(); i++ {
-				r.Groups[i] = v.Index(i).Interface().(string)
+				g, ok := v.Index(i).Interface().(string)
+				if !ok {
+					return r, fmt.Errorf("groups should contain only strings, entry #%v is not a string", i)
+				}
+				r.Groups[i] = g
 			}
 		case reflect.String:
 			r.Groups = []string{rg.(string)}
